@@ -602,6 +602,8 @@ func execute(s *engine.Script, o *engine.Outcome) {
 				o.Violate("C18/result-differs-from-solo-execution/"+tc.c.name, "task %d call %d %s on a shared %s: %s", id, ci, tc.c.name, vop.Struct, diff(tc.want, tc.got))
 			}
 			o.FP.Step("call", id, ci, tc.c.name, tc.got)
+			o.FPR.Step("call", id, ci, tc.c.name, tc.got)
+			o.HasFPR = true
 		}
 	}
 	for id, calls := range tasks {
